@@ -326,8 +326,10 @@ def fixed_cases(scratch, quick=True):
         for prior in (D(("p", D())), D(("p", D(("big.bin", F(f[1][: nb // 2], not f[2]))))), D(("p", D(("big.bin", F(f[1][:-1] + "!", f[2])))))):
             out.append((case(ws, prior, [["file", "big.bin"]]), {"kind": "file", "prior": "boundary-size", "size": nb, "depth": 0, "fam": "sizes"}))
     t = D(*[("s%d" % nb, F(pat(nb, 3), nb % 2 == 1)) for nb in (4096, 32768, 32769, 65537)])
-    out.append((case(D(("p", D(("out", t)))), D(("p", D(("out", S.mutate_tree(__import__("random").Random(5), t))))), [["dir", "out"]]),
-                {"kind": "dir", "prior": "boundary-size", "size": S.size(t), "depth": 1, "fam": "sizes"}))
+    half = D(("s4096", F("")), ("s32769", F(pat(32768, 3), True)), ("s65537", F(pat(100, 3))), ("stale", F("x")))
+    for prior in (D(), D(("p", D(("out", half))))):
+        out.append((case(D(("p", D(("out", t)))), prior, [["dir", "out"]]),
+                    {"kind": "dir", "prior": "boundary-size", "size": S.size(t), "depth": 1, "fam": "sizes"}))
     # fan-out around channel / batch capacities
     for fan in ((63, 64, 65, 129, 257) if quick else (63, 64, 65, 127, 128, 129, 255, 256, 257, 1025)):
         t = D(*[("f%04d" % k, F("c%d" % (k % 7), k % 3 == 0)) for k in range(fan)])
